@@ -28,14 +28,14 @@ type stats struct {
 	Evaluations int64            `json:"evaluations"`
 	Labels      map[string]int64 `json:"labels"`
 	hashes      map[uint64]struct{}
-	Hashes      []uint64                 `json:"hashes"`
-	HashesFull  bool                     `json:"hashes_truncated"`
-	Samples     map[string][]any         `json:"samples"`
-	Known       map[string]int64         `json:"known_seen"`
-	KnownEx     map[string]string        `json:"known_example"`
-	Exhaustive  map[string]bool          `json:"exhaustive"`
-	Extra       map[string]any           `json:"extra"`
-	Tests       map[string]int64         `json:"tests"`
+	Hashes      []uint64          `json:"hashes"`
+	HashesFull  bool              `json:"hashes_truncated"`
+	Samples     map[string][]any  `json:"samples"`
+	Known       map[string]int64  `json:"known_seen"`
+	KnownEx     map[string]string `json:"known_example"`
+	Exhaustive  map[string]bool   `json:"exhaustive"`
+	Extra       map[string]any    `json:"extra"`
+	Tests       map[string]int64  `json:"tests"`
 }
 
 var st = &stats{
